@@ -28,6 +28,17 @@ SPECIAL = {
     "C19-m1": ("math", [], FMA, True),
     "C18-m2": ("math-manifest", ["--features", "verif-hooks"], {}, False),
     "C20-m1": ("math-manifest", ["--no-default-features"], FMA, True),
+    # round two (worktrees /tmp/wt/R2<prop>, seeds <prop>-r2m<k>)
+    "C05-r2m2": ("root", [], FMA, True),
+    "C07-r2m1": ("root", ["--features", "verif-hooks"], {}, False),
+    "C07-r2m2": ("root", ["--features", "verif-hooks"], {}, False),
+    "C07-r2m3": ("miri", [], {}, False),
+    "C19-r2m1": ("math", [], {}, False),
+    "C19-r2m2": ("math", [], {}, False),
+    "C19-r2m3": ("math", [], {}, False),
+    "C18-r2m1": ("math", [], {}, False),
+    "C18-r2m2": ("math", [], {}, False),
+    "C18-r2m3": ("math", [], {}, False),
 }
 
 
@@ -48,7 +59,10 @@ def demo_cmd(key, wt, mdir):
     env = dict(env)
     if sep:
         env["CARGO_TARGET_DIR"] = os.path.join(wt, "target-alt")
-    if loc == "root":
+    if loc == "miri":
+        dst = os.path.join(wt, "tests", "demo.rs")
+        cmd = ["cargo", "+nightly", "miri", "test", "--offline", "--test", "demo"] + args
+    elif loc == "root":
         dst = os.path.join(wt, "tests", "demo.rs")
         cmd = ["cargo", "test", "--offline", "--test", "demo"] + args
     elif loc == "math":
@@ -71,14 +85,17 @@ def clean(wt):
             pass
 
 
-def confirm(prop):
-    wt = os.path.join(WT, prop)
+def confirm(wtname):
+    # "C07" -> worktree /tmp/wt/C07, seeds C07-m<k>;  "R2C07" -> worktree /tmp/wt/R2C07, seeds C07-r2m<k>
+    r2 = wtname.startswith("R2")
+    prop = wtname[2:] if r2 else wtname
+    wt = os.path.join(WT, wtname)
     res = []
     clean(wt)
     sh(["git", "checkout", "-q", "--detach", HEAD], wt)
     base_pass, base_fail = suite(wt)
     for k in (1, 2, 3):
-        key = f"{prop}-m{k}"
+        key = f"{prop}-r2m{k}" if r2 else f"{prop}-m{k}"
         mdir = os.path.join(wt, "out", f"m{k}")
         if not os.path.exists(os.path.join(mdir, "patch.diff")):
             continue
@@ -103,7 +120,7 @@ def confirm(prop):
         os.makedirs(os.path.dirname(dst), exist_ok=True)
         shutil.copy(os.path.join(mdir, "demo.rs"), dst)
         rc, out = sh(cmd, wt, env)
-        rec["demo_fails_with_patch"] = rc != 0 and ("test result: FAILED" in out or "panicked" in out or "error: test failed" in out)
+        rec["demo_fails_with_patch"] = rc != 0 and ("test result: FAILED" in out or "panicked" in out or "error: test failed" in out or "Undefined Behavior" in out)
         rec["demo_cmd"] = (" ".join(f"{a}={b}" for a, b in env.items() if a != "CARGO_TARGET_DIR") + " " + " ".join(cmd)).strip() + f"   (demo.rs at {os.path.relpath(dst, wt)})"
         rec["demo_output_tail_with_patch"] = out[-600:]
         sh(["git", "checkout", "--", "."], wt)
@@ -137,7 +154,7 @@ def confirm(prop):
 
 
 def main():
-    props = sys.argv[1:] or sorted(p for p in os.listdir(WT) if re.fullmatch(r"C\d\d", p))
+    props = sys.argv[1:] or sorted(p for p in os.listdir(WT) if re.fullmatch(r"(R2)?C\d\d", p))
     allres = []
     with ThreadPoolExecutor(max_workers=int(os.environ.get("JOBS", "5"))) as ex:
         for r in ex.map(confirm, props):
